@@ -565,6 +565,129 @@ func runC02(c *core.Ctx) core.Meta {
 	// ---------------- R02.4 flush before copy ----------------
 	checkFlushBeforeCopy(c, pd, pc, prov, "R02.4")
 
+	// ---------------- R02.6 scalar loads split across cache lines land in consecutive registers ----------------
+	st6 := c.Rule("R02.6", "the timing scalar unit splits an s_load that crosses cache lines into pieces of X bytes (X from the address cursor and the remaining byte count): the address cursor advances by X, each request asks for X bytes at the cursor, and the destination register of a piece is the first register plus (cursor - start) / 4, or a register cursor that advances by X / 4; emulation writes the whole range at once, so a piece that lands elsewhere makes the two modes differ", 4)
+	if fn := c.MustFunc("R02.6", cuPkg, "ScalarUnit.executeSMEMLoad"); fn != nil {
+		c.MarkAnalysed(fn)
+		loops := findSplitLoops(fn)
+		st6.Instances++
+		st6.Ob(len(loops) == 1)
+		if len(loops) != 1 {
+			c.ReportAt("R02.6", fn, fn.Pos(), "split-loop", "the loop `for bytesLeft > 0 { bytesLeft -= X }` that splits a scalar load into cache-line pieces was not found")
+		} else {
+			sl := loops[0]
+			X := sl.chunk
+			// the address cursor: another header phi advanced by X
+			var cursor *ssa.Phi
+			var start ssa.Value
+			scaledStep := func(step ssa.Value) bool { // X/4 or X>>2
+				bo, ok := core.StripConv(step).(*ssa.BinOp)
+				if !ok || core.StripConv(bo.X) != X {
+					return false
+				}
+				k, isC := core.ConstInt(bo.Y)
+				return isC && ((bo.Op == token.QUO && k == 4) || (bo.Op == token.SHR && k == 2))
+			}
+			var regCursor *ssa.Phi
+			for _, in := range sl.header.Instrs {
+				phi, ok := in.(*ssa.Phi)
+				if !ok {
+					break
+				}
+				if phi == sl.rem {
+					continue
+				}
+				for i, e := range phi.Edges {
+					bo, ok := e.(*ssa.BinOp)
+					if !ok || bo.Op != token.ADD || bo.X != ssa.Value(phi) {
+						continue
+					}
+					st6.Instances++
+					switch {
+					case bo.Y == X:
+						cursor, start = phi, phi.Edges[1-i]
+						st6.Ob(true)
+					case scaledStep(bo.Y):
+						regCursor = phi
+						st6.Ob(true)
+					default:
+						st6.Ob(false)
+						c.ReportAt("R02.6", fn, bo.Pos(), "cursor-step:"+phi.Comment, fmt.Sprintf("cursor %s advances by %s per piece while the piece is %s bytes long (a register cursor must advance by the piece size / 4)", phi.Comment, short(prov.Of(bo.Y)), short(prov.Of(X))))
+					}
+				}
+			}
+			st6.Instances++
+			st6.Ob(cursor != nil)
+			if cursor == nil {
+				c.ReportAt("R02.6", fn, sl.rem.Pos(), "address-cursor", "no address cursor advancing by the piece size was found")
+			}
+			for _, b := range fn.Blocks {
+				if !sl.header.Dominates(b) {
+					continue
+				}
+				for _, in := range b.Instrs {
+					if cc := core.CallOf(in); cc != nil {
+						if f := core.CalleeFunc(in); f != nil && len(cc.Args) > 0 {
+							arg := cc.Args[len(cc.Args)-1]
+							switch f.Name() {
+							case "WithByteSize":
+								st6.Instances++
+								st6.Ob(arg == X)
+								if arg != X {
+									c.ReportAt("R02.6", fn, in.Pos(), "piece-size", "a piece requests "+short(prov.Of(arg))+" bytes, not the piece size")
+								}
+							case "WithAddress":
+								st6.Instances++
+								st6.Ob(cursor != nil && arg == ssa.Value(cursor))
+								if cursor == nil || arg != ssa.Value(cursor) {
+									c.ReportAt("R02.6", fn, in.Pos(), "piece-address", "a piece is read at "+short(prov.Of(arg))+", not at the address cursor")
+								}
+							}
+						}
+					}
+					stv, ok := in.(*ssa.Store)
+					if !ok {
+						continue
+					}
+					if f := core.FieldOfAddr(stv.Addr); f == nil || f.Name() != "DstSGPR" {
+						continue
+					}
+					st6.Instances++
+					okD := false
+					var regArg ssa.Value
+					if call, isCall := stv.Val.(*ssa.Call); isCall && len(call.Call.Args) == 1 {
+						regArg = core.StripConv(call.Call.Args[0])
+					}
+					if regArg != nil {
+						if ph, isPhi := regArg.(*ssa.Phi); isPhi && ph == regCursor {
+							okD = true
+						}
+						if add, isAdd := regArg.(*ssa.BinOp); isAdd && add.Op == token.ADD {
+							for _, off := range []ssa.Value{add.X, add.Y} {
+								q, isQ := core.StripConv(off).(*ssa.BinOp)
+								if !isQ {
+									continue
+								}
+								k, isC := core.ConstInt(q.Y)
+								if !isC || !((q.Op == token.QUO && k == 4) || (q.Op == token.SHR && k == 2)) {
+									continue
+								}
+								if sub, isSub := core.StripConv(q.X).(*ssa.BinOp); isSub && sub.Op == token.SUB && cursor != nil && sub.X == ssa.Value(cursor) && sub.Y == start {
+									okD = true
+								}
+							}
+						}
+					}
+					st6.Ob(okD)
+					st6.Sample("executeSMEMLoad: destination register of a piece = %s", short(prov.Of(stv.Val)))
+					if !okD {
+						c.ReportAt("R02.6", fn, in.Pos(), "piece-register", "the destination register of a piece is "+short(prov.Of(stv.Val))+", not first register + (cursor - start) / 4: a load split unevenly over two cache lines writes its second piece to the wrong registers")
+					}
+				}
+			}
+		}
+	}
+
 	// ---------------- R02.5 timing-only wait counters stay balanced ----------------
 	checkOutstandingCounters(c, pcu, prov, "R02.5")
 
